@@ -158,9 +158,10 @@ RES = 'std::result::Result'
 
 
 class Desugarer:
-    def __init__(self, raw, should_expand):
+    def __init__(self, raw, should_expand, adts=()):
         self.raw = raw
         self.should_expand = should_expand
+        self.adts = dict(adts) if isinstance(adts, dict) else dict((a, ()) for a in adts)
 
     # ------------------------------------------------------------------
     def closure_of(self, B, op, depth=0):
@@ -199,6 +200,15 @@ class Desugarer:
         if cpath.startswith('extern:'):
             fn = cpath[len('extern:'):]
             B.expanded.append(cpath)
+            # a tuple-variant / tuple-struct constructor used as a function (`.map(Choice::L)`) builds the value
+            sp_ = short(fn)
+            adt, _, var = sp_.rpartition('::')
+            adts = getattr(self, 'adts', {})
+            if var[:1].isupper():
+                cands = [a for a, vs in adts.items() if var in vs and (a == adt or a.rpartition('::')[0] == adt)]
+                if len(cands) == 1:
+                    return B.block([assign_place(dest_place, agg_variant(cands[0], var, list(args)), span)],
+                                   goto(target, span))
             return B.block([], {'k': 'call', 'decl': fn, 'full': fn, 'callee': fn, 'local': False, 'targs': [],
                                 'args': list(args), 'dest': dest_place, 'target': target, 'unwind': 'continue',
                                 'span': span, 'exp': False, 'synthetic': True})
